@@ -503,6 +503,16 @@ class JSBoundMethod:
         return self._fn(this_val, *args)
 
 
+def _to_integer_or_zero(value: Union[int, float]) -> int:
+    """Integer part of a number for the modular typed-array conversions (ToInt8 ...
+    ToUint32): NaN and the infinities convert to 0."""
+    if isinstance(value, float):
+        if math.isnan(value) or math.isinf(value):
+            return 0
+        return int(value)
+    return value
+
+
 class JSTypedArray(JSObject):
     """Base class for JavaScript typed arrays."""
 
@@ -566,7 +576,7 @@ class JSTypedArray(JSObject):
 
     def _coerce_value(self, value):
         """Coerce value to the appropriate type. Override in subclasses."""
-        return int(value) if isinstance(value, (int, float)) else 0
+        return _to_integer_or_zero(value) if isinstance(value, (int, float)) else 0
 
     def __repr__(self) -> str:
         return f"{self._type_name}({self._data})"
@@ -582,7 +592,7 @@ class JSInt32Array(JSTypedArray):
     def _coerce_value(self, value):
         """Coerce to signed 32-bit integer."""
         if isinstance(value, (int, float)):
-            v = int(value)
+            v = _to_integer_or_zero(value)
             # Handle overflow to signed 32-bit
             v = v & 0xFFFFFFFF
             if v >= 0x80000000:
@@ -601,7 +611,7 @@ class JSUint32Array(JSTypedArray):
     def _coerce_value(self, value):
         """Coerce to unsigned 32-bit integer."""
         if isinstance(value, (int, float)):
-            return int(value) & 0xFFFFFFFF
+            return _to_integer_or_zero(value) & 0xFFFFFFFF
         return 0
 
 
@@ -641,7 +651,7 @@ class JSUint8Array(JSTypedArray):
     def _coerce_value(self, value):
         """Coerce to unsigned 8-bit integer."""
         if isinstance(value, (int, float)):
-            return int(value) & 0xFF
+            return _to_integer_or_zero(value) & 0xFF
         return 0
 
 
@@ -655,7 +665,7 @@ class JSInt8Array(JSTypedArray):
     def _coerce_value(self, value):
         """Coerce to signed 8-bit integer."""
         if isinstance(value, (int, float)):
-            v = int(value) & 0xFF
+            v = _to_integer_or_zero(value) & 0xFF
             if v >= 0x80:
                 v -= 0x100
             return v
@@ -672,7 +682,7 @@ class JSInt16Array(JSTypedArray):
     def _coerce_value(self, value):
         """Coerce to signed 16-bit integer."""
         if isinstance(value, (int, float)):
-            v = int(value) & 0xFFFF
+            v = _to_integer_or_zero(value) & 0xFFFF
             if v >= 0x8000:
                 v -= 0x10000
             return v
@@ -689,7 +699,7 @@ class JSUint16Array(JSTypedArray):
     def _coerce_value(self, value):
         """Coerce to unsigned 16-bit integer."""
         if isinstance(value, (int, float)):
-            return int(value) & 0xFFFF
+            return _to_integer_or_zero(value) & 0xFFFF
         return 0
 
 
@@ -702,14 +712,13 @@ class JSUint8ClampedArray(JSTypedArray):
     def _coerce_value(self, value):
         """Coerce to clamped unsigned 8-bit integer (0-255)."""
         if isinstance(value, (int, float)):
-            # Round half to even for 0.5 values
-            v = round(value)
-            # Clamp to 0-255
-            if v < 0:
+            # Clamp first (NaN becomes 0, the infinities saturate), then round
+            # half to even
+            if math.isnan(value) or value <= 0:
                 return 0
-            if v > 255:
+            if value >= 255:
                 return 255
-            return v
+            return round(value)
         return 0
 
 
